@@ -21,14 +21,14 @@ structure MetaFacts (Γ : Ctx) (ci : ClassInfo) (m : XmlMeta) : Prop where
   attrs : ∀ var ∈ m.attributeVars, attrVarOK m ci var = true
   attrNodup : (m.attributeVars.map (·.qname)).Nodup
   body : match m.text with
-    | none => ∀ var ∈ m.elementVars, elemVarOK Γ m ci var = true
+    | none => ∀ var ∈ m.elementVars, elemVarOK true Γ m ci var = true
     | some tv => m.elementVars = [tv] ∧ textVarOK ci tv = true
   idxNodup : (m.elementVars.map (·.index)).Nodup
   nameNodup : ((m.attributeVars ++ m.elementVars).map (·.name)).Nodup
   fieldNodup : (ci.fields.map (·.name)).Nodup
   covered : ∀ f ∈ ci.fields, ∃ var ∈ m.attributeVars ++ m.elementVars, var.name = f.name
 
-theorem metaFacts_of {Γ : Ctx} {ci : ClassInfo} {m : XmlMeta} (h : metaF1 Γ ci m = true) :
+theorem metaFacts_of {Γ : Ctx} {ci : ClassInfo} {m : XmlMeta} (h : metaF1 true Γ ci m = true) :
     MetaFacts Γ ci m := by
   simp only [metaF1, Bool.and_eq_true, decide_eq_true_eq, Bool.not_eq_true', List.isEmpty_iff,
     List.all_eq_true, List.any_eq_true] at h
@@ -60,7 +60,7 @@ theorem ctx_metaFacts {Γ : Ctx} (hΓ : ctxF1 Γ = true) {c : ClassId} {ci : Cla
     (hm : ci.metaFor pns = some m) : MetaFacts Γ ci m := by
   have hci : ci ∈ Γ.classes := List.mem_of_find?_eq_some hfind
   obtain ⟨p, hp⟩ := metaFor_mem hm
-  simp only [ctxF1, List.all_eq_true, Bool.and_eq_true] at hΓ
+  simp only [ctxF1, ctxF1G, List.all_eq_true, Bool.and_eq_true] at hΓ
   exact metaFacts_of ((hΓ ci hci).2 (p, m) hp)
 
 theorem find_id {Γ : Ctx} {c : ClassId} {ci : ClassInfo} (h : Γ.find c = some ci) : ci.id = c := by
@@ -331,7 +331,7 @@ theorem mem_names_of_find {ci : ClassInfo} {name : Str} {f : FieldInfo}
 
 theorem attrFacts_of {Γ : Ctx} {m : XmlMeta} {ci : ClassInfo} {fields : List (Str × Val)}
     {var : XmlVar} (hv : attrVarOK m ci var = true)
-    (hx : attrValOK Γ ci var (look fields var.name) = true)
+    (hx : attrValOK true Γ ci var (look fields var.name) = true)
     (hnames : fields.map (·.1) = ci.fields.map (·.name)) : AttrFacts Γ m fields var := by
   simp only [attrVarOK, varBase, Bool.and_eq_true, decide_eq_true_eq, Bool.not_eq_true'] at hv
   obtain ⟨⟨⟨⟨⟨⟨⟨hA, hB⟩, _⟩, hfind⟩, hnil⟩, hty⟩, htypes⟩, hfa⟩ := hv
@@ -359,7 +359,7 @@ inductive ElemKind (Γ : Ctx) (m : XmlMeta) (var : XmlVar) : Prop
       (hm : metaOf Γ c (targetUri m.qname) = some m') (hns : nsAgree Γ m' var.qname = true)
 
 theorem elemFacts_of {Γ : Ctx} {m : XmlMeta} {ci : ClassInfo} {var : XmlVar}
-    (hv : elemVarOK Γ m ci var = true) :
+    (hv : elemVarOK true Γ m ci var = true) :
     ElemFacts m var ∧ ElemKind Γ m var ∧ fieldAgrees ci var = true := by
   simp only [elemVarOK, varBase, Bool.and_eq_true, decide_eq_true_eq, Bool.not_eq_true',
     VarCore.isElement, Option.isNone_iff_eq_none] at hv
